@@ -20,6 +20,10 @@ class InjectedFault(RuntimeError):
     pass
 
 
+# --datetime / --disable-str-serializable-types in Cli histories
+CLI_REGISTRY_OPTIONS = True
+
+
 # ---------------------------------------------------------------------------------------------------------
 # case generation
 
@@ -39,7 +43,9 @@ def gen_cases_for(seed_, n):
             elif prof == "oddnames":
                 # model names that label conversion rewrites: leading digit 0 ('0day' -> '_day...'), names that coincide only after
                 # conversion in an ancestor/descendant pair ('größe' containing 'grosse'), punctuation
-                outer, inner_k = rng.choice([("größe", "grosse"), ("0day_reports", "1st_items"), ("a-b", "a.b"), ("naïve", "naive"), ("0x_items", "00_items")])
+                outer, inner_k = rng.choice([("größe", "grosse"), ("0day_reports", "1st_items"), ("a-b", "a.b"), ("naïve", "naive"), ("0x_items", "00_items"),
+                                                 # class names a framework may treat specially (pydantic's inner Config, typing names)
+                                                 ("config", "settings"), ("model", "config"), ("Config", "fields"), ("list", "optional")])
                 samples = [{outer: {inner_k: {"v": 1, "w": "s"}, "n": 2}, "plain": 1}]
                 if rng.random() < 0.5:
                     samples.append({outer: {inner_k: {"v": 2}, "n": 3}})
@@ -57,7 +63,7 @@ def gen_cases_for(seed_, n):
                 merge = gen.merge_policy(rng)
             inputs.append({"samples": samples, "merge": merge, "convert_unicode": rng.random() < 0.7,
                            "registry": rng.choice([["IntString", "FloatString", "BooleanString"], gen.STR_TYPES]),
-                           "max_literals": rng.choice([0, 5, 10, 16]), "name": f"Root{k}"})
+                           "max_literals": rng.choice([0, 5, 10, 16]), "name": f"Root{k}", "prof": prof})
         ops = []
         have = set()
         for _ in range(rng.randint(2, 4)):
@@ -78,10 +84,62 @@ def gen_cases_for(seed_, n):
             elif r < 0.86:
                 ops.append({"op": "failing", "input": rng.choice(sorted(have)), "fw": fw, "flat": flat,
                             "how": rng.choice(["failpoint", "failpoint", "field_data"]), "at": rng.randint(1, 60)})
-            elif r < 0.93:
+            elif r < 0.90:
                 ops.append({"op": "gen_other_unicode", "input": k, "fw": fw, "flat": flat})
+            elif r < 0.94:
+                # a generation that passes a types_style override (library-only option), then the same framework without it
+                ops.append({"op": "styled", "input": k, "fw": fw, "flat": flat, "style": rng.choice(["no_literals", "actual_type", "both"])})
+                ops.append({"op": "gen", "input": k, "fw": fw, "flat": flat})
+                have.add(k)
             else:
                 ops.append({"op": "implicit", "strings": rng.sample(["2018-01-02", "10:30:00", "1", "2.5", "true", "abc", "2018-01-02T10:30:00"], 3), "fw": fw})
+        if i % 5 == 2:
+            # one Cli object configured and run several times (parse_args + run, run again) with different option sets
+            ops = []
+            for _ in range(rng.randint(2, 4)):
+                extra = []
+                if rng.random() < 0.4:
+                    extra += ["--max-strings-literals", str(rng.choice([0, 2, 5, 16]))]
+                if rng.random() < 0.4:
+                    extra += ["--dkf"] + rng.sample(["first", "inner", "k", "plain", "meta"], rng.randint(1, 2))
+                if rng.random() < 0.3:
+                    extra += ["--dkr", rng.choice([r"\\d+", "[a-z]", "k.*"])]
+                if rng.random() < 0.4:
+                    extra += ["--preamble", rng.choice(["# preamble A", "X = 1", "  ", ""])]
+                if rng.random() < 0.4:
+                    extra += ["--merge"] + rng.choice([["exact"], ["percent_50"], ["number_2", "percent_90"], ["percent_90", "percent_50"]])
+                if rng.random() < 0.3:
+                    extra += ["--disable-unicode-conversion"]
+                if rng.random() < 0.3:
+                    extra += ["--strings-converters"]
+                if CLI_REGISTRY_OPTIONS and rng.random() < 0.35:
+                    extra += rng.choice([["--datetime"], ["--disable-str-serializable-types", "int"], ["--disable-str-serializable-types", "float", "bool"],
+                                         ["--datetime", "--disable-str-serializable-types", "IsoDateString"]])
+                k = rng.randrange(len(inputs))
+                flat = True
+                if inputs[k]["prof"] == "tree" and rng.random() < 0.6:
+                    # nested layout is claimed for tree-shaped graphs: the tree inputs are trees under an exact-match merge policy
+                    flat = False
+                    if "--merge" in extra:
+                        j = extra.index("--merge")
+                        e = j + 1
+                        while e < len(extra) and not extra[e].startswith("--"):
+                            e += 1
+                        del extra[j:e]
+                    extra = [x for x in extra]
+                    extra += ["--merge", "exact"]
+                    for opt in ("--dkf", "--dkr"):
+                        if opt in extra:
+                            j = extra.index(opt)
+                            e = j + 1
+                            while e < len(extra) and not extra[e].startswith("--"):
+                                e += 1
+                            del extra[j:e]
+                ops.append({"op": "cli", "input": k, "fw": rng.choice(FWS), "flat": flat, "extra": extra, "again": rng.random() < 0.3})
+            if rng.random() < 0.5:
+                ops.append({"op": "implicit", "strings": rng.sample(["2018-01-02", "10:30:00", "1", "2.5", "true", "abc", "2018-01-02T10:30:00"], 3), "fw": rng.choice(FWS)})
+            cases.append({"i": i, "inputs": inputs, "ops": ops})
+            continue
         if not any(o["op"] in ("failing", "rerender") for o in ops):
             ops.insert(1, {"op": "failing", "input": sorted(have)[0], "fw": "pydantic", "flat": False, "how": "failpoint", "at": rng.randint(1, 40)})
             ops = ops[:4] if len(ops) > 4 else ops
@@ -218,6 +276,54 @@ def exec_op(state, inputs, op):
             except InjectedFault as e:
                 return {"injected": str(e)}
             return {"injected": None}
+        if kind == "styled":
+            from json_to_models.dynamic_typing import StringLiteral, StringSerializable
+            from json_to_models.models.base import generate_code
+            from json_to_models.models.structure import compose_models, compose_models_flat
+            inp = inputs[op["input"]]
+            o = _opts(inp, op["fw"], op["flat"])
+            run = driver.infer([(inp["name"], inp["samples"])], o)
+            style = {}
+            if op["style"] in ("no_literals", "both"):
+                style[StringLiteral] = {StringLiteral.TypeStyle.use_literals: op["fw"] == "attrs"}
+            if op["style"] in ("actual_type", "both"):
+                style[StringSerializable] = {StringSerializable.TypeStyle.use_actual_type: op["fw"] not in ("pydantic", "sqlmodel")}
+            kw = dict(driver.generator_kwargs(o), types_style=style)
+            res = {"text": generate_code((compose_models_flat if o["flat"] else compose_models)(run.registry.models_map), driver.FW[op["fw"]],
+                                         class_generator_kwargs=kw)}
+            if not o["flat"] and not driver.is_tree(run.registry):
+                res["outside_claim"] = True
+            return res
+        if kind == "cli":
+            import tempfile
+            from json_to_models.cli import Cli
+            inp = inputs[op["input"]]
+            cli = state.get("cli")
+            if cli is None:
+                cli = state["cli"] = Cli()
+            with tempfile.TemporaryDirectory(prefix="j2m_c14_") as td:
+                path = os.path.join(td, "in.json")
+                with open(path, "w") as f:
+                    json.dump(inp["samples"], f)
+                argv = ["-m", inp["name"], path, "-f", op["fw"], "-s", "flat" if op["flat"] else "nested"] + list(op["extra"])
+                outpath = None
+                if op.get("outname"):
+                    # -o FILE; concurrent pipelines (C15) write their different files into one shared directory
+                    outpath = os.path.join(op.get("outdir") or td, op["outname"])
+                    argv += ["-o", outpath]
+                try:
+                    cli.parse_args(argv)
+                except SystemExit as e:
+                    return {"raised": f"SystemExit: {e.code}", "site": "argparse"}
+                text = cli.run()
+                if op.get("again"):
+                    text = cli.run()
+                if outpath:
+                    with open(outpath, encoding="utf-8") as f:
+                        text = f.read()
+            # the header (timestamp, command line of this worker process) is not part of the comparison
+            body = text.split('"""\n', 2)[-1] if text.startswith('r"""') else text
+            return {"text": body}
         if kind == "implicit":
             from json_to_models.generator import MetadataGenerator
             from json_to_models.models.base import generate_code
@@ -345,10 +451,13 @@ def state_digest():
     import json_to_models.dynamic_typing as D
     from json_to_models.dynamic_typing.models_meta import AbsoluteModelRef
     from json_to_models.models.base import GenericModelCodeGenerator
+    from .. import driver
+    from json_to_models.dynamic_typing import StringLiteral
     return digest([
         [c.__name__ for c in D.registry.types], sorted((a.__name__, b.__name__) for a, b in D.registry.replaces),
         repr(getattr(AbsoluteModelRef.Context.data, "context", "<unset>")),
-        repr(GenericModelCodeGenerator.default_types_style),
+        [repr(g.default_types_style) for g in driver.FW.values()],
+        StringLiteral.MAX_LITERALS, StringLiteral.MAX_STRING_LENGTH,
     ])
 
 
@@ -388,6 +497,10 @@ def run_case(case):
             cnt["direct_calls"] += 1
         if op["op"] == "implicit":
             cnt["implicit_ops"] += 1
+        if op["op"] == "styled":
+            cnt["styled_ops"] = cnt.get("styled_ops", 0) + 1
+        if op["op"] == "cli":
+            cnt["cli_ops"] = cnt.get("cli_ops", 0) + 1
         # the same operation alone in a pristine process
         ref_op = dict(op)
         if op["op"] == "rerender":
